@@ -293,6 +293,19 @@ def case_set(ctx, rng, idx):
             sets.append(sr)
             for nm in names:
                 allobs[nm].extend(ob[nm])
+        # the runner's skip counter: present only in the batches that skipped
+        skip_total, skip_sets = 0, []
+        if idx % 3 == 0:
+            for i, sr in enumerate(sets):
+                if rng.random() < 0.5:
+                    k = int(rng.integers(1, 5))
+                    r = Result("num_skipped_reps", Result.SUMTYPE)
+                    for _ in range(k):
+                        r.update(1)
+                    sr.add_result(r)
+                    skip_total += k
+                    skip_sets.append(i)
+            tag["skip-counter-in-sets"] = skip_sets
     except Exception as e:
         import traceback
         ctx.ev("set-grouping-independent", False, cls="build-raised:" + type(e).__name__,
@@ -321,6 +334,11 @@ def case_set(ctx, rng, idx):
                cls="%s:%s" % (TNAME[t], diff),
                detail=lambda: {**tag, "name": nm, "field": diff, "merged": stats(got),
                                "single": stats(ref)})
+    if skip_sets:
+        got = merged["num_skipped_reps"][-1].get_result() \
+            if "num_skipped_reps" in merged.get_result_names() else None
+        ctx.ev("set-grouping-independent", got == skip_total, cls="skip-counter-conserved",
+               detail={**tag, "got": got, "want": skip_total})
     # append_all_results keeps every operand's Result, in order
     app = SimulationResults()
     for s in sets:
@@ -329,6 +347,73 @@ def case_set(ctx, rng, idx):
     ctx.ev("append-keeps-all", ok, cls="count", detail=tag)
     ctx.sig("set", nnames, tuple(TNAME[t] for t in kinds), vclass, tree, nsets)
     ctx.sample("set", tag)
+
+
+def case_multi(ctx, rng, idx):
+    """Several parameter combinations in one object (append_all_results), each
+    receiving its repetitions through merge_all_results under a random
+    grouping: every combination must equal the single-object accumulation of
+    ITS OWN repetitions, and earlier combinations must not change."""
+    nnames = int(rng.integers(1, 4))
+    names = ["res%d" % i for i in range(nnames)]
+    kinds = [TYPES[int(rng.integers(0, 4))] for _ in names]
+    accs = [bool(rng.integers(0, 2)) for _ in names]
+    vclass = "exact" if idx % 2 == 0 else "float"
+    ncomb = int(rng.integers(2, 6))
+    grouping = ["one-by-one", "rest-first", "random"][int(rng.integers(0, 3))]
+    tag = {"names": names, "types": [TNAME[t] for t in kinds], "accumulate": accs,
+           "vclass": vclass, "combinations": ncomb, "grouping": grouping}
+    total = SimulationResults()
+    log = OperandLog(ctx, "operand-not-mutated", tag)
+    domerge = lambda a, b: log.merge(a, b, snap_set, lambda x, y: x.merge_all_results(y))
+    per_comb = []
+
+    def build():
+        for c in range(ncomb):
+            nreps = int(rng.integers(1, 6))
+            reps, obs = [], {nm: [] for nm in names}
+            for _ in range(nreps):
+                sr, ob = make_set(rng, names, kinds, accs, int(rng.integers(1, 4)), vclass)
+                reps.append(sr)
+                for nm in names:
+                    obs[nm].extend(ob[nm])
+            per_comb.append(obs)
+            before = [[snap_result(r) for r in total[nm]] for nm in names] if c else None
+            total.append_all_results(reps[0])
+            rest = reps[1:]
+            if grouping == "one-by-one" or len(rest) < 2:
+                for r in rest:
+                    domerge(total, r)
+            elif grouping == "rest-first":
+                acc = rest[0]
+                for r in rest[1:]:
+                    domerge(acc, r)
+                domerge(total, acc)
+            else:
+                domerge(total, merge_tree(rest, "random", rng, domerge))
+            if c:
+                now = [[snap_result(r) for r in total[nm]][:c] for nm in names]
+                ctx.ev("earlier-combinations-untouched", now == before, cls="changed",
+                       detail=lambda: {**tag, "combination": c, "before": before, "now": now})
+
+    okc, _ = ctx.call("set-grouping-independent", build, cls="multi", detail=tag)
+    if not okc:
+        return
+    log.final()
+    for nm, t, acc in zip(names, kinds, accs):
+        ctx.ev("set-grouping-independent", len(total[nm]) == ncomb, cls="multi:count",
+               detail={**tag, "name": nm, "got": len(total[nm])})
+        if len(total[nm]) != ncomb:
+            continue
+        for c in range(ncomb):
+            ref = accumulate(nm, t, acc, per_comb[c][nm])
+            got = total[nm][c]
+            diff = same_stats(stats(got), stats(ref), vclass == "exact" or t == Result.CHOICETYPE,
+                              len(per_comb[c][nm]), scales_of(t, per_comb[c][nm]))
+            ctx.ev("set-grouping-independent", diff is None, cls="multi:%s:%s" % (TNAME[t], diff),
+                   detail=lambda: {**tag, "name": nm, "combination": c, "field": diff,
+                                   "merged": stats(got), "single": stats(ref)})
+    ctx.sig("multi", nnames, tuple(TNAME[t] for t in kinds), vclass, grouping, ncomb)
 
 
 def case_combine(ctx, rng, idx):
@@ -418,9 +503,10 @@ def classify(w):
 GENS = {
     "result": Gen(case_result, 10000, 600000),
     "set": Gen(case_set, 3000, 200000),
+    "multi": Gen(case_multi, 1500, 100000),
     "combine": Gen(case_combine, 1200, 90000),
 }
 MIN_EVALS = {"grouping-independent": 4000, "operand-not-mutated": 8000,
              "set-grouping-independent": 1500, "combine-per-combination": 1500,
              "equality-operator": 1000, "update-counts": 3000, "misc-last-wins": 300,
-             "append-keeps-all": 500}
+             "append-keeps-all": 500, "earlier-combinations-untouched": 500}
